@@ -51,7 +51,18 @@ for m in re.finditer(r'harness!\((\w+),', src):
     else:
         add('verif_segtree', n, ['MinSegTree::min_index'], FS, 'n=%s elements; any tree satisfying rep_inv; |deltas| <= 2^24' % n[-1],
             **(TH if n[-1] in '578' else {}))
-ST = dict(tier='selftest', expect='refuted')
+# realistic timeouts: about 2-3x the measured wall time on the shared 16-core machine (see REPORT.md)
+MEASURED = {'sort_order_n5_m2': 102, 'sort_order_n5_m3': 169, 'sort_order_n5_m4': 322, 'sort_order_n5_m5': 19,
+            'bubble_sort_n5_perm': 383, 'api_n6_s1': 93, 'api_n7_s1': 104, 'api_n8_s1': 178, 'api_n5_s2': 749,
+            'api_n6_s2': 1081, 'step_add_split_n5': 204, 'step_min_index_n5': 283, 'step_min_index_n7': 124,
+            'step_min_index_n8': 230}
+for h in hs:
+    n = h['name'].split('::')[1]
+    if h['tier'] == 'quick':
+        h['timeout'] = 600
+    else:
+        h['timeout'] = max(900, int(2.2 * MEASURED.get(n, 170)))
+ST = dict(tier='selftest', expect='refuted', timeout=300)
 add('verif_order', 'selftest_sort_order_identity_must_fail', ['sort_order'], FM, 'N=3,m=2', **ST)
 add('verif_order', 'selftest_bubble_sort_one_swap_must_fail', ['bubble_sort'], FM, 'N=3', **ST)
 add('verif_segtree', 'selftest_min_index_highest_must_fail', ['MinSegTree::min_index'], FS, 'n=3', **ST)
